@@ -1068,6 +1068,18 @@ func init() {
 					}
 				}
 			}
+			// TCP listeners (a Windows-style plugin, and host), also behind a
+			// container-style runner that publishes the plugin's ports shifted
+			for _, tc := range []map[string]string{P("launch", "cmd"), P("launch", "runner"), P("launch", "runner", "xlate", "1")} {
+				for _, hg := range []string{"", "windows"} {
+					for _, dir := range []string{"h", "p"} {
+						for _, ord := range []string{"a", "d"} {
+							out = append(out, sp("C07", fmt.Sprintf("fixed-tcp/%s%s/host%s/%s/%s", tc["launch"], tc["xlate"], hg, dir, ord), seed,
+								cp(tc, "tls", "none", "fixed", "1", "dir", dir, "ord", ord, "gap", "0", "pgoos", "windows", "hgoos", hg)))
+						}
+					}
+				}
+			}
 			for _, si := range []string{"h", "p"} {
 				out = append(out, sp("C07", "fixed-staleinfo/"+si, seed, P("tls", "none", "launch", "cmd", "fixed", "1", "dir", "h", "ord", "a", "gap", "0", "staleinfo", si)))
 			}
